@@ -1,5 +1,5 @@
 /-
-  VK.Model.Pairwise — mirrors `graphs/pairwise_comparison_graph.py` for untied ranked ballots.
+  VK.Model.Pairwise — mirrors `graphs/pairwise_comparison_graph.py` (ranked ballots, tied positions allowed).
 
   `h2h` is the *declarative* head-to-head count (listed beats unlisted, two unlisted split evenly).
   The code obtains the same number by expanding every short ballot into all completions
@@ -21,9 +21,29 @@ def prefShare (r : List Cand) (a b : Cand) : Rat :=
   | none, some _ => 0
   | none, none => 1 / 2
 
+/-- weight preferring `a` to `b`, read off the flattened rankings (untied ballots only; this is the
+count the `ballot_fill` enumeration is compared with in `Lemmas/Fill`) -/
+def h2hFlat (p : Profile) (a b : Cand) : Rat :=
+  rsum (p.ballots.map (fun bl => prefShare bl.ranking.flatten a b * bl.weight))
+
+/-- index of the position (group of tied candidates) `c` stands in, if listed -/
+def posOfR (r : Ranking) (c : Cand) : Option Nat :=
+  let i := r.findIdx (fun s => s.contains c)
+  if i < r.length then some i else none
+
+/-- share of one ballot's weight that prefers `a` to `b`, for rankings with tied positions as well:
+candidates tied in one position are ranked neither way (`head2head_count` counts such a ballot for
+both, so it cancels in the margin; here they split it evenly) -/
+def prefShareR (r : Ranking) (a b : Cand) : Rat :=
+  match posOfR r a, posOfR r b with
+  | some i, some j => if i < j then 1 else if j < i then 0 else 1 / 2
+  | some _, none => 1
+  | none, some _ => 0
+  | none, none => 1 / 2
+
 /-- weight preferring `a` to `b` -/
 def h2h (p : Profile) (a b : Cand) : Rat :=
-  rsum (p.ballots.map (fun bl => prefShare bl.ranking.flatten a b * bl.weight))
+  rsum (p.ballots.map (fun bl => prefShareR bl.ranking a b * bl.weight))
 
 def margin (p : Profile) (a b : Cand) : Rat := h2h p a b - h2h p b a
 
